@@ -470,6 +470,11 @@ func err1Obligations(w *World) []Ob {
 				role = writerSinkRole(p, fn, ci)
 			}
 			ob := Ob{Func: fid, Construct: construct, Pos: pos, Scope: scopeOf(p, fn), Role: role, Nontrivial: true}
+			if (s.what == "os.Stat" || s.what == "os.Lstat") && isExistencePredicate(fn) {
+				ob.Status, ob.Detail, ob.Nontrivial = OK, "existence predicate: every Stat outcome other than not-exist answers 'exists', which the caller reports as the path-exists error (EFF-6 checks that branch)", false
+				l.add(ob)
+				continue
+			}
 			if reason, ok := err1Exempt[fid+" | "+s.what]; ok {
 				ob.Status, ob.Detail, ob.Nontrivial = OK, "exempt (named): "+reason, false
 				l.add(ob)
